@@ -44,6 +44,12 @@ def dirh_stages(ctx, adapters=("mem", "kvplain", "osref")):
 def c02_stages(ctx):
     handles_stages(ctx)
     dirh_stages(ctx)
+    trace_stage(ctx)  # lib/checks_trace.py: recorded executions of the conformance scenarios against FSCore + Handles
+
+
+def c01_stages(ctx):
+    fscore_stages(ctx)
+    trace_stage(ctx)
 
 
 def c16_stages(ctx):
@@ -84,7 +90,7 @@ CHECKS.update({
     "C02": c02_stages,
     "C16": c16_stages,
     "C17": c02_stages,
-    "C01": fscore_stages,
+    "C01": c01_stages,
     "C03": c03_all,
     "C05": c05_all,
 })
